@@ -14,8 +14,14 @@ def _blank(size, nh, tweak, flags):
     return f
 
 
+def _within(f):
+    """IsWithinSizeConstraints must be exactly "at most 36,000 bytes and at most 50 functions" (BIP37 /
+    protocol maxima, written as literals here); -1 is reported in place of the data length otherwise"""
+    return f.IsWithinSizeConstraints() == (len(f.vData) <= 36000 and f.nHashFuncs <= 50)
+
+
 def _init_obs(f):
-    return [len(f.vData), f.nHashFuncs, f.nTweak, f.nFlags]
+    return [len(f.vData) if _within(f) else -1, f.nHashFuncs, f.nTweak, f.nFlags]
 
 
 def _history(f, ops):
@@ -61,10 +67,10 @@ def run(op, a):
         return _history(f, ops)
     if op in (4, 5):
         f = CBloomFilter(a[0], float(a[1].decode()), 0, 0)
-        return [len(f.vData), f.nHashFuncs]
+        return [len(f.vData) if _within(f) else -1, f.nHashFuncs]
     if op == 6:
         f = CBloomFilter.deserialize(a[0])
-        return [bytes(f.vData), f.nHashFuncs, f.nTweak, f.nFlags, f.serialize()]
+        return [bytes(f.vData), f.nHashFuncs if _within(f) else -1, f.nTweak, f.nFlags, f.serialize()]
     if op == 7:
         return _blank(a[0], a[1], a[2], a[3]).serialize()
     raise ValueError('op')
